@@ -20,6 +20,7 @@ CONSTANTS
   Edits = FALSE
   Prefix <- NoPrefix
   MaxHavoc = 0
+  KeepRec = FALSE
 INVARIANT NoBad
 PROPERTY EventuallyQuiet
 CHECK_DEADLOCK FALSE
